@@ -45,6 +45,8 @@ fn main() {
             "template" => replay_one(&suites::message::template_suite(), &v["input"], &mut model),
             "timestamp" => replay_one(&suites::identity::timestamp_suite(), &v["input"], &mut model),
             "mailmap" => replay_one(&suites::identity::mailmap_suite(), &v["input"], &mut model),
+            "keepcommit" => replay_one(&suites::commit::Keep, &v["input"], &mut model),
+            "finalizeparents" => replay_one(&suites::commit::Parents, &v["input"], &mut model),
             _ => json!({"error": "unknown suite"}),
         };
         println!("{}", serde_json::to_string_pretty(&r).unwrap());
@@ -67,6 +69,7 @@ fn main() {
             "timestamp" => vec![suites::identity::run_timestamp(&tier, seed, &mut model)],
             "authors" => suites::identity::run_authors(&tier, seed, &mut model),
             "mailmap" => vec![suites::identity::run_mailmap(&tier, seed, &mut model)],
+            "commit" => vec![suites::commit::run_keep(&tier, seed, &mut model), suites::commit::run_parents(&tier, seed, &mut model), suites::commit::run_misc(&tier, seed, &mut model)],
             other => {
                 eprintln!("unknown suite {other}");
                 std::process::exit(2);
